@@ -42,6 +42,12 @@ WIDE = ('tr_wrapped || ref_negative', WIDE_MODES)    # the sequential loop takes
                                                     # in a 64-bit iterator), or the translation visited a value in [2^31, 2^32) (true values are below 2^15)
 
 
+def UNSNEG(init, bound):
+    # the iterator is unsigned and the initial value or the bound is a negative signed value: the sequential loop compares in
+    # unsigned arithmetic, the emitted launch-size expression is evaluated in the operands' own signed type
+    return ('((long)(%s)) < 0 || ((long)(%s)) < 0' % (init, bound), O.LAUNCH_MODES)
+
+
 NEG = 'launch_negative && nvis[0] == 0'   # the sequential loop is empty and the launcher computed a negative dimension
 
 
@@ -89,12 +95,21 @@ def programs(tier, seed):
             p.excl_post = {'negative-trip-count': NEG}
             if T == 'long':
                 p.excl_post['wide-iterator-negative'] = WIDE
+            if T == 'unsigned int':
+                p.excl['unsigned-iterator-negative-operand'] = UNSNEG(init, bound)
             progs.append(p)
     # designated program for re-confirming the wide-iterator finding (a negative initial value is reachable)
     okl = '@kernel void hwide(%s) {\n  for (long i = a; i < N; i++; @outer) {\n    for (int j = 0; j < 1; ++j; @inner) {\n      rec(out, i, j);\n    }\n  }\n}\n' % SIG
     p = O.Prog('hwide', okl, 'hwide', ARGS(tier), refcap=U, cap=U + 1, unwind=U + 2, desc='for (long i = a; i < N; i++; @outer): 64-bit iterator with 32-bit operands')
     p.excl_post = {'negative-trip-count': NEG, 'wide-iterator-negative': WIDE}
     p.reconfirms = ('wide-iterator-negative',)
+    progs.append(p)
+    # designated program for re-confirming the unsigned-iterator finding
+    okl = '@kernel void huns(%s) {\n  for (int j = 0; j < 1; ++j; @outer) {\n    for (unsigned int i = b & 15; a <= i; i -= s; @inner) {\n      rec(out, i, j);\n    }\n  }\n}\n' % SIG
+    p = O.Prog('huns', okl, 'huns', ARGS(tier), refcap=U, cap=U + 1, unwind=U + 2, desc='for (unsigned int i = b & 15; a <= i; i -= s; @inner): unsigned iterator, signed bound')
+    p.excl_post = {'negative-trip-count': NEG}
+    p.excl = {'unsigned-iterator-negative-operand': UNSNEG('b & 15', 'a')}
+    p.reconfirms = ('unsigned-iterator-negative-operand',)
     progs.append(p)
     # (3) multi-dimensional nests: index <-> dimension assignment
     NESTM = {'n2x2': ['Serial', 'CUDA', 'OpenCL'], 'n3x1': ['OpenMP', 'HIP', 'Metal'], 'n1x3': ['Serial', 'dpcpp', 'CUDA'], 'n2x1s': ['OpenMP', 'OpenCL', 'Metal']}
